@@ -1,6 +1,7 @@
 import PyTrie.Lemmas.WalkProofs
 import PyTrie.Lemmas.WalkConcrete
 import PyTrie.Lemmas.ReadPartial
+import PyTrie.Lemmas.VersionsConsistent
 import PyTrie.Props.C08
 /-! # C09 — a fog-guided walk finds everything, even while the trie changes
 
@@ -133,5 +134,45 @@ theorem stale_parent_truthful (H : Bytes → Bytes) (hlen : ∀ b, (H b).length 
       | some (h, pre) => .error (.missing h pre)
       | none => .ok (TravOut.toD H (traverseOut parent seg)) :=
   traverseOutD_partial H hlen db parent hc hst seg fuel hf
+
+end PyTrie.Props.C09
+
+/-! ## Every earlier version stays consistent with the current database
+
+`ReachVersions H prune ops T s`: the executor's run of a history, with the run-level premises of `ReachOpsNC` and, in
+addition, at every step: the step's writes agree with the nodes of every earlier version (no two different nodes among the
+versions of the run share a hash). Then whatever the current database — pruned or not — holds under the hash of a node of
+ANY earlier version is that node's encoding. With `stale_parent_truthful` (and `C07.raw_traverse_partial`,
+`raw_get_partial`): reading an older version through the current database — a stale `TrieFrontierCache` parent, a node kept
+from before a mutation, an old root — returns what that version says or reports the first missing node. -/
+namespace PyTrie.Props.C09
+open PyTrie PyTrie.Hex PyTrie.HexD PyTrie.HexW PyTrie.HexRaw PyTrie.HexFree
+open PyTrie.Props.C01 (Op run)
+
+theorem earlier_versions_consistent (H : Bytes → Bytes) (prune : Bool) (ops : List Op) (T : TrieSt) (s : OpSt)
+    (h : ReachVersions H prune ops T s) (i : Nat) (hi : i ≤ ops.length) :
+    RootPartial H s.store.base (rootHash H (run (ops.take i))) (run (ops.take i)) ∧
+    PartialD H s.store.base (run (ops.take i)) :=
+  all_versions_consistent H prune ops T s h i hi
+
+/-- one operation keeps any canonical tree consistent with the database, whatever trie it operates on and however it ends -/
+theorem op_keeps_other_tree_consistent (H : Bytes → Bytes) (T : TrieSt) (key : Bytes) (val : Option Bytes) (s : OpSt)
+    (t0 : Node) (hc0 : Canon t0) (root0 : Hash)
+    (hp : RootPartial H s.store.base root0 t0 ∧ PartialD H s.store.base t0)
+    (hag : WritesAgree H (opWrites (stdHashing H) T key val) t0) :
+    RootPartial H (opSetDel (stdHashing H) (blankRoot H) T key val s).1.store.base root0 t0 ∧
+    PartialD H (opSetDel (stdHashing H) (blankRoot H) T key val s).1.store.base t0 :=
+  opSetDel_keeps_tree_consistent H T key val s t0 hc0 root0 hp hag
+
+/-- **reading any earlier version through the current database**: `traverse` from the old root's node returns what that
+    version says or `MissingTraversalNode` for the first absent node on the path -/
+theorem old_version_read_truthful (H : Bytes → Bytes) (hlen : ∀ b, (H b).length = 32) (prune : Bool) (ops : List Op) (T : TrieSt)
+    (s : OpSt) (h : ReachVersions H prune ops T s) (i : Nat) (hi : i ≤ ops.length) (p : Path) (fuel : Nat) (hf : p.length < fuel) :
+    traverseOutD H s.store.base fuel (toItem H (run (ops.take i))) p =
+      match firstMissingRead H s.store.base (run (ops.take i)) p [] with
+      | some (h, pre) => .error (.missing h pre)
+      | none => .ok (TravOut.toD H (traverseOut (run (ops.take i)) p)) :=
+  traverseOutD_partial H hlen s.store.base (run (ops.take i)) (PyTrie.Props.C01.canon_run _)
+    (all_versions_consistent H prune ops T s h i hi).2 p fuel hf
 
 end PyTrie.Props.C09
